@@ -313,7 +313,7 @@ def run(tier, cmd):
                             'category; shorthands panic exactly for out-of-range arguments and otherwise build the same bytes. That accessors then '
                             'return the arguments, and the structured view, follow by composition with C02/C01 (same byte-level oracle), which is '
                             'argued, not re-interpreted, here.')
-    Fs = load_configs(chk, ['K1'] + (['K2'] if tier == 'thorough' else []), required=('K1',))
+    Fs = load_configs(chk, ['K1', 'K2'], required=('K1',))
     for cfg, F in sorted(Fs.items()):
         guarded(chk, '%s/named/%s' % (PID, cfg), 'constructor table', lambda F=F: named_constructors(chk, F))
         guarded(chk, '%s/generic/%s' % (PID, cfg), 'generic constructor', lambda F=F: generic_constructors(chk, F))
